@@ -53,6 +53,7 @@ type Violation struct {
 
 // Run collects what one check invocation did.
 type Run struct {
+	fdStart    int
 	ID         string
 	Tier       string
 	Seed       int64
@@ -90,8 +91,18 @@ func New(id, tier string) *Run {
 		outcomes: map[string]int64{}, Bounds: map[string]any{}, Extra: map[string]any{},
 		violations: map[string]*Violation{}, known: map[string]string{}, knownHit: map[string]int64{}}
 	r.loadKnown()
+	r.fdStart = OpenFDs()
 	current = r
 	return r
+}
+
+// OpenFDs counts the open file descriptors of this process (-1 if /proc is not available).
+func OpenFDs() int {
+	ents, err := os.ReadDir("/proc/self/fd")
+	if err != nil {
+		return -1
+	}
+	return len(ents)
 }
 
 var current *Run
@@ -260,6 +271,14 @@ type replayFile struct {
 // Finish writes evidence and replay files, prints the verdict lines and returns the exit code.
 func (r *Run) Finish() int {
 	r.Cleanup()
+	// resource check common to all explorations: the code under test was called thousands to millions of
+	// times in this process; descriptors it failed to close would have piled up
+	if r.fdStart >= 0 && !r.ReplayMode {
+		if now := OpenFDs(); now > r.fdStart+64 {
+			r.Violation("resource:file-descriptors", fmt.Sprintf("%d file descriptors are open at the end of the exploration, %d were open at its start: the code under test leaks descriptors", now, r.fdStart), nil)
+		}
+		r.Extra["open_file_descriptors_start_end"] = []int{r.fdStart, OpenFDs()}
+	}
 	r.mu.Lock()
 	defer r.mu.Unlock()
 	wall := time.Since(r.start).Seconds()
